@@ -581,3 +581,272 @@ Example C03_reach_nonvacuous :
    cell_get (g_cells (bs_grid (m_sim (snd r)))) (2, 2) = [] /\
    cell_get (g_cells (bs_grid (m_sim (snd r)))) (0, 1) = [3%nat]).
 Proof. exact r3_nonvacuous. Qed.
+
+(* =====================================================================================================
+   Third end-to-end instance (supports C01, C03, C07, C08, C13, C16): MultiMazeNavigationSim of
+   abmarl/examples/sim/multi_maze_navigation.py -- MazePlacementState + MoveActor +
+   PositionCenteredEncodingObserver under its own reset / step / get_reward / get_done / get_all_done.
+   Grid/MazeNavSim.v: `mazenav_sim cf : simulation nstate (list (list Z)) unit cell` (the navigating
+   agents learn; the target and the barriers do not).  Its RESET IS COMPUTED: mn_reset applies the
+   placement model of C13 (Place.reset, KMaze: generate_maze around the target, barrier-encoded agents
+   on wall cells, free-encoded agents on passage cells) to the next recorded draws, on the grid the
+   previous episode left.  Vocabulary:
+     n_statics cf g   g is a grid state of configuration cf: dimensions, overlap table, and every agent
+                      as configured apart from its position (encoding, blocking; this simulation has no
+                      HealthState: no health / ammunition / orientation attribute, active)
+     done_on cf g a   agent a and the target both have a position and it is the same cell (get_done)
+     reward_ok cf g a r   r = 1 when done_on, otherwise r <= 0 (an accumulated amount)
+     rew_nonpos st    no accumulated reward is positive (true of the new object, kept by everything)
+     dinv cf m        every navigating agent the manager remembers as done stands on the target's cell
+     has_nav cf       the configuration has a navigating agent (order <> [])
+   ===================================================================================================== *)
+From Abm Require Import Grid.MazeNavSim Proofs.MazeNavSim_proofs.
+From Abm Require Grid.Maze Grid.Place Proofs.Maze_proofs Proofs.Place_proofs.
+
+(* MultiMazeNavigationSim.step keeps the invariant: every action dictionary (any keys, any offsets,
+   duplicates, agents that are done, the target, barriers), every state *)
+Theorem C03_maze_step_ginv : forall cf st acts,
+  ginv (ns_grid st) -> ginv (ns_grid (mn_step cf st acts)).
+Proof. exact mn_step_ginv. Qed.
+Print Assumptions C03_maze_step_ginv.
+
+(* the object before its first reset is a state of its configuration and satisfies the invariant *)
+Theorem C03_maze_blank : forall cf, wf_ncfg cf = true ->
+  n_statics cf (n_blank cf) /\ ginv (n_blank cf).
+Proof. exact (fun cf H => conj (n_blank_statics cf) (n_blank_ginv cf H)). Qed.
+Print Assumptions C03_maze_blank.
+
+(* EVERY reset that does not raise, from ANY previous state of the configuration (whatever the
+   positions and cells were): it consumed the next recorded draws, cleared the rewards, and the grid
+   it leaves satisfies the C03 invariant with every agent placed, is the one C13's placement model
+   computes, and that placement is legal in the sense of C13 (C13_legal: inside the grid, initial
+   positions and the target's start cell honoured, co-occupants may overlap, alone under
+   no_overlap_at_reset, grid = positions = placements, every agent exactly once) *)
+Theorem C03_maze_reset_fresh : forall cf st,
+  wf_ncfg cf = true -> n_statics cf (ns_grid st) -> ns_bad (mn_reset cf st) = false ->
+  exists d rest,
+    ns_resets st = d :: rest /\ ns_resets (mn_reset cf st) = rest /\ ns_rew (mn_reset cf st) = n_zero cf /\
+    n_position_reset cf d (ns_grid st) = Some (ns_grid (mn_reset cf st)) /\
+    ginv (ns_grid (mn_reset cf st)) /\ n_statics cf (ns_grid (mn_reset cf st)) /\
+    all_placed (ns_grid (mn_reset cf st)) /\
+    Place_proofs.legal (nc_place cf) d (Place.outcome_of (nc_place cf) (n_placement cf d)) /\
+    Place.o_kind (Place.outcome_of (nc_place cf) (n_placement cf d)) = Place.ROk /\
+    map a_pos (g_agents (ns_grid (mn_reset cf st))) =
+      map Some (Place.o_pos (Place.outcome_of (nc_place cf) (n_placement cf d))).
+Proof. exact mn_reset_fresh. Qed.
+Print Assumptions C03_maze_reset_fresh.
+
+(* ... and it starts the episode in a maze: a grid-shaped 0/1 maze whose passages are all connected to
+   the target's cell, the target on its start cell, every freely placed barrier-encoded agent on a wall
+   cell and every freely placed free-encoded agent on a passage cell *)
+Theorem C03_maze_reset_maze : forall cf d g s,
+  wf_ncfg cf = true -> n_statics cf g -> n_position_reset cf d g = Some s ->
+  exists m st,
+    Place.o_maze (Place.outcome_of (nc_place cf) (n_placement cf d)) = Some m /\
+    Place.spec_start (nc_place cf) d = Some st /\
+    Maze.maze_shape_b m (Place.c_rows (nc_place cf)) (Place.c_cols (nc_place cf)) = true /\
+    Maze.gget m st = 0 /\ (forall p, Maze.gget m p = 0 -> Maze_proofs.conn m st p) /\
+    (forall t, agent s (n_target cf) = Some t -> a_pos t = Some st) /\
+    forall i a p, agent s i = Some a -> a_pos a = Some p ->
+      Place.prescribed (nc_place cf) (Place.spec_start (nc_place cf) d) i = None ->
+      (memZ (Place.enc (nc_place cf) i) (Place.c_barrier (nc_place cf)) = true -> Maze.gget m p = 1) /\
+      (memZ (Place.enc (nc_place cf) i) (Place.c_free (nc_place cf)) = true -> Maze.gget m p = 0).
+Proof. exact n_position_reset_maze. Qed.
+Print Assumptions C03_maze_reset_maze.
+
+(* the reset does not depend on the previous state: two states of the configuration (any positions,
+   any cells, any pending rewards) that hold the same draw streams and flag are reset to the same
+   state; at the level of the grid, the outcome (new grid, or that it raises) is a function of
+   configuration and draws *)
+Theorem C03_maze_reset_indep : forall cf,
+  (forall d g1 g2, n_statics cf g1 -> n_statics cf g2 ->
+     n_position_reset cf d g1 = n_position_reset cf d g2) /\
+  (forall st1 st2, n_statics cf (ns_grid st1) -> n_statics cf (ns_grid st2) ->
+     ns_resets st1 = ns_resets st2 -> ns_obsorc st1 = ns_obsorc st2 -> ns_bad st1 = ns_bad st2 ->
+     ns_bad (mn_reset cf st1) = false -> mn_reset cf st1 = mn_reset cf st2).
+Proof. exact (fun cf => conj (n_position_reset_indep cf) (mn_reset_indep cf)). Qed.
+Print Assumptions C03_maze_reset_indep.
+
+(* get_obs / get_reward, in any number and order, leave the grid and the stream of reset draws alone
+   (get_reward READS get_done and clears the accumulator; it never writes the grid) *)
+Theorem C03_maze_getters_pure : forall cf s s',
+  greach (mazenav_sim cf) s s' -> ns_grid s' = ns_grid s /\ ns_resets s' = ns_resets s.
+Proof. exact n_greach_frame. Qed.
+Print Assumptions C03_maze_getters_pure.
+
+Theorem C03_maze_done_stable : forall cf, done_stable (mazenav_sim cf).
+Proof. exact mazenav_done_stable. Qed.
+Print Assumptions C03_maze_done_stable.
+
+(* the invariant holds in every simulation state any manager (all-step, turn-based, dynamic order, the
+   pre-repair turn manager) reaches from the new object by ANY call list, in or out of protocol, with
+   every reset computed by the placement model from whatever draws the state holds *)
+Theorem C03_maze_ginv_reachable : forall cf k s0 cs,
+  wf_ncfg cf = true -> n_statics cf (ns_grid s0) -> ginv (ns_grid s0) ->
+  ginv (ns_grid (m_sim (snd (run (mazenav_sim cf) k (init s0) cs)))) /\
+  forall e, In e (trace (mazenav_sim cf) k (init s0) Fresh cs) ->
+    ginv (ns_grid (m_sim (te_pre e))) /\ ginv (ns_grid (m_sim (te_post e))).
+Proof. exact mazenav_ginv_reachable. Qed.
+Print Assumptions C03_maze_ginv_reachable.
+
+(* C01/C07 along in-protocol histories of the maze simulation; the target and the barriers (not
+   learning) are in done_agents from the first reset on *)
+Theorem C03_maze_invariants_all : forall cf s0 cs,
+  wf_ncfg cf = true -> n_statics cf (ns_grid s0) -> ginv (ns_grid s0) ->
+  in_protocol (trace (mazenav_sim cf) MAll (init s0) Fresh cs) ->
+  forall e, In e (trace (mazenav_sim cf) MAll (init s0) Fresh cs) ->
+    (te_ph e <> Fresh -> incl (nonlearning (mazenav_sim cf)) (m_done (te_pre e))) /\
+    ginv (ns_grid (m_sim (te_pre e))) /\ ginv (ns_grid (m_sim (te_post e))) /\
+    do_call (mazenav_sim cf) MAll (te_pre e) (te_call e) = (te_resp e, te_post e) /\
+    NoDup (ep_dones (trace (mazenav_sim cf) MAll (init s0) Fresh cs) []).
+Proof. exact mazenav_invariants_all. Qed.
+Print Assumptions C03_maze_invariants_all.
+
+Theorem C03_maze_invariants_turn : forall cf s0 cs,
+  wf_ncfg cf = true -> n_statics cf (ns_grid s0) -> ginv (ns_grid s0) ->
+  in_protocol (trace (mazenav_sim cf) MTurn (init s0) Fresh cs) ->
+  forall e, In e (trace (mazenav_sim cf) MTurn (init s0) Fresh cs) ->
+    (te_ph e = Live -> tinv (mazenav_sim cf) (te_pre e)) /\
+    ginv (ns_grid (m_sim (te_pre e))) /\ ginv (ns_grid (m_sim (te_post e))) /\
+    do_call (mazenav_sim cf) MTurn (te_pre e) (te_call e) = (te_resp e, te_post e).
+Proof. exact mazenav_invariants_turn. Qed.
+Print Assumptions C03_maze_invariants_turn.
+
+Theorem C03_maze_history_steps_turn : forall cf s0 cs,
+  in_protocol (trace (mazenav_sim cf) MTurn (init s0) Fresh cs) ->
+  forall e acts sh, In e (trace (mazenav_sim cf) MTurn (init s0) Fresh cs) -> te_call e = CStep acts sh ->
+    match te_resp e with
+    | ROut o =>
+        wfo o /\ NoDup (keys o) /\ (forall a, In a (keys o) -> ~ In a (m_done (te_pre e))) /\
+        ~ submits_done (m_done (te_pre e)) acts /\ incl (m_done (te_pre e)) (m_done (te_post e)) /\
+        greach (mazenav_sim cf) (mn_step cf (m_sim (te_pre e)) acts) (m_sim (te_post e)) /\
+        o_all o = mn_all cf (mn_step cf (m_sim (te_pre e)) acts)
+                  || all_in (mazenav_sim cf) (m_done (te_post e)) /\
+        (o_all o = false -> forall a, In (a, true) (o_done o) -> In a (m_done (te_post e)))
+    | RObs _ => False
+    | _ => te_post e = te_pre e
+    end.
+Proof. exact mazenav_steps_turn. Qed.
+Print Assumptions C03_maze_history_steps_turn.
+
+Theorem C03_maze_done_at_most_once_turn : forall cf s0 cs,
+  in_protocol (trace (mazenav_sim cf) MTurn (init s0) Fresh cs) ->
+  NoDup (ep_dones (trace (mazenav_sim cf) MTurn (init s0) Fresh cs) []).
+Proof. exact mazenav_done_once_turn. Qed.
+Print Assumptions C03_maze_done_at_most_once_turn.
+
+(* C16 over the maze simulation: episode generation never acts for a finished agent *)
+Theorem C03_maze_trainer_never_fails :
+  forall PS cf pmap (pol_act : PS -> nat -> list (list Z) -> cell * PS) pol_reset shuf h k m ps,
+  has_nav cf -> k = MAll \/ k = MTurn ->
+  er_status (generate_episode (mazenav_sim cf) pmap pol_act pol_reset shuf h k m ps) = EOk /\
+  exists obs, er_reset (generate_episode (mazenav_sim cf) pmap pol_act pol_reset shuf h k m ps) = RObs obs.
+Proof. exact mazenav_trainer_never_fails. Qed.
+Print Assumptions C03_maze_trainer_never_fails.
+
+(* C08 with the reset COMPUTED (as C08_battle_used_vs_fresh): all-step and turn-based manager, new
+   object s0 (any draw streams), ANY history h and follow-up calls cs: once the used object's draw
+   streams are those of the new one (n_reseed: seeding the generators before the follow-up reset), the
+   follow-up reset and everything after it answer as on the new object.  Side conditions: the follow-up
+   reset does not raise on the new object; the history did not leave the model's domain differently *)
+Theorem C03_maze_used_vs_fresh : forall cf k s0 h cs,
+  k = MAll \/ k = MTurn -> has_nav cf -> wf_ncfg cf = true ->
+  n_statics cf (ns_grid s0) -> ginv (ns_grid s0) -> n_next_reset_ok cf s0 = true ->
+  let used := snd (run (mazenav_sim cf) k (init s0) h) in
+  ns_bad (m_sim used) = ns_bad s0 ->
+  fst (run (mazenav_sim cf) k (n_reseed_m used s0) (CReset :: cs)) =
+  fst (run (mazenav_sim cf) k (init s0) (CReset :: cs)).
+Proof. exact mazenav_used_vs_fresh. Qed.
+Print Assumptions C03_maze_used_vs_fresh.
+
+Theorem C03_maze_episode_indistinguishable : forall cf k m1 m2 cs,
+  has_nav cf -> k <> MTurnPrefix ->
+  mn_reset cf (m_sim m1) = mn_reset cf (m_sim m2) ->
+  fst (run (mazenav_sim cf) k m1 (CReset :: cs)) = fst (run (mazenav_sim cf) k m2 (CReset :: cs)).
+Proof. exact mazenav_episode_indistinguishable. Qed.
+Print Assumptions C03_maze_episode_indistinguishable.
+
+(* manager o simulation, one accepted step of the all-step or the turn-based manager (any branch:
+   plain, flush, turn search): every done flag in the output is `stands on the target's cell` in the
+   grid the call leaves; every reward is 1 for such an agent and otherwise an accumulated, never
+   positive amount; an agent newly remembered as done stands on the target's cell *)
+Theorem C03_maze_step_entries : forall cf k m acts sh o m',
+  k = MAll \/ k = MTurn -> rew_nonpos (m_sim m) ->
+  do_call (mazenav_sim cf) k m (CStep acts sh) = (ROut o, m') ->
+  (forall a b, In (a, b) (o_done o) -> b = done_on cf (ns_grid (m_sim m')) a) /\
+  (forall a r, In (a, r) (o_rew o) -> reward_ok cf (ns_grid (m_sim m')) a r) /\
+  (forall a, In a (m_done m') -> In a (m_done m) \/ done_on cf (ns_grid (m_sim m')) a = true) /\
+  rew_nonpos (m_sim m').
+Proof. exact mazenav_step_entries. Qed.
+Print Assumptions C03_maze_step_entries.
+
+(* get_done in words, for every id a manager can ask (navigating agent, target, barrier, unknown) *)
+Theorem C03_maze_done_on_readable : forall cf g a, done_on cf g a = true <->
+  exists rec t p, agent g a = Some rec /\ agent g (n_target cf) = Some t /\
+                  a_pos rec = Some p /\ a_pos t = Some p.
+Proof. exact done_on_spec. Qed.
+Print Assumptions C03_maze_done_on_readable.
+
+(* one manager step, accepted or not, all-step (the simulation receives keys of the submitted
+   dictionary) or turn-based: an agent the manager remembers as done is not moved, nor is any agent
+   that is not a navigating agent (the target, the barriers) *)
+Theorem C03_maze_done_never_moved : forall cf k m acts sh r m' a,
+  k = MAll \/ k = MTurn -> (k = MAll -> sh_ok acts sh) ->
+  do_call (mazenav_sim cf) k m (CStep acts sh) = (r, m') ->
+  In a (m_done m) \/ is_nav cf a = false ->
+  agent (ns_grid (m_sim m')) a = agent (ns_grid (m_sim m)) a.
+Proof. exact mazenav_step_frame. Qed.
+Print Assumptions C03_maze_done_never_moved.
+
+(* hence along EVERY call list (in or out of protocol) from a manager state with dinv (the new manager:
+   nobody remembered): a navigating agent the manager remembers as done stands on the target's cell
+   before and after every call, and no step moves an agent the manager remembers as done.  The target
+   is a plain GridWorldAgent, as in the example *)
+Theorem C03_maze_done_stay : forall cf k cs, k = MAll \/ k = MTurn -> is_nav cf (n_target cf) = false ->
+  forall m ph, calls_ok k cs -> rew_nonpos (m_sim m) -> dinv cf m ->
+  forall e, In e (trace (mazenav_sim cf) k m ph cs) ->
+    dinv cf (te_pre e) /\ dinv cf (te_post e) /\
+    (forall acts sh, te_call e = CStep acts sh -> forall a, In a (m_done (te_pre e)) ->
+       agent (ns_grid (m_sim (te_post e))) a = agent (ns_grid (m_sim (te_pre e))) a).
+Proof. exact mazenav_done_stay. Qed.
+Print Assumptions C03_maze_done_stay.
+
+(* the recorded run is the managers' run *)
+Theorem C03_maze_run_snap_is_run : forall cf k cs m,
+  map nr_resp (fst (mrun_snap cf k m cs)) = fst (run (mazenav_sim cf) k m cs) /\
+  snd (mrun_snap cf k m cs) = snd (run (mazenav_sim cf) k m cs).
+Proof. exact mrun_snap_run. Qed.
+Print Assumptions C03_maze_run_snap_is_run.
+
+(* the extracted checker of the component (ginvb and the statics on every recorded snapshot; C13's
+   chk_reset on the reported outcome of every reset against the recorded draws, and the snapshot's
+   positions are the outcome's; every reported done flag / reward consistent with the snapshot; flag
+   clear) answers 1 on the extracted model's own output, for every decodable input (well-formed maze
+   configuration, all-step or turn-based manager) with a navigating agent whose first call is a reset
+   and on which the recorded draws were admissible and no reset raised *)
+Theorem C03_maze_chk_model : forall xin i,
+  dec_nav xin = Some i -> has_nav (mi_cfg i) -> (exists cs', mi_calls i = CReset :: cs') ->
+  ns_bad (m_sim (snd (nav_records i))) = false ->
+  run_chk_mazenav (L [xin; run_mazenav xin]) = A 1.
+Proof. exact run_chk_mazenav_model. Qed.
+Print Assumptions C03_maze_chk_model.
+
+(* non-vacuity: a 3x3 maze generated around the target in the middle (walls at (0,0), (1,2), (2,0)),
+   the barrier on the wall (1,2), the navigators on the passages (1,0) and (0,2); one all-step step in
+   which navigator 2 steps onto the target's cell (reward 1, done, remembered) and navigator 3 walks
+   into the barrier (refused: -0.1 - 0.01); the component's checker accepts the records *)
+Example C03_maze_nonvacuous :
+  wf_ncfg mz_cf = true /\ has_nav mz_cf /\ is_nav mz_cf (n_target mz_cf) = false /\
+  n_next_reset_ok mz_cf mz_s0 = true /\ calls_ok MAll mz_calls /\
+  in_protocol (trace (mazenav_sim mz_cf) MAll (init mz_s0) Fresh mz_calls) /\
+  (let r := mrun_snap mz_cf MAll (init mz_s0) mz_calls in
+   map nr_resp (fst r) = mz_out /\ ns_bad (m_sim (snd r)) = false /\
+   m_done (snd r) = [0%nat; 1%nat; 2%nat] /\
+   map (fun x => ginvb (nr_grid x)) (fst r) = [0; 0] /\
+   option_map (fun o => (Place.o_maze o, Place.o_log o)) (mn_outcome mz_cf mz_s0) =
+     Some (Some [[1; 0; 0]; [0; 0; 1]; [1; 0; 0]],
+           [(0%nat, (1, 1)); (1%nat, (1, 2)); (2%nat, (1, 0)); (3%nat, (0, 2))]) /\
+   map a_pos (g_agents (ns_grid (m_sim (snd r)))) = [Some (1, 1); Some (1, 2); Some (1, 1); Some (0, 2)] /\
+   cell_get (g_cells (ns_grid (m_sim (snd r)))) (1, 1) = [0%nat; 2%nat] /\
+   chk_nav_recs mz_cf [mz_d; mz_d] mz_calls (map enc_nrec (fst r)) = 0).
+Proof. exact mz_nonvacuous. Qed.
